@@ -616,7 +616,7 @@ impl<'a> WorldGen<'a> {
             GType::Str => GValue::Str(pools::string(rng)),
             GType::Ent(n) => {
                 let pool = self.pools.get(n).cloned().unwrap_or_default();
-                let is_enum = self.schema.entity_type(n).map(|e| e.enum_ids.is_some()).unwrap_or(false);
+                let is_enum = self.schema.entity_type(n).map(|e| e.enum_ids.is_some()).unwrap_or(false) || n == "Action" || n.ends_with("::Action");
                 if pool.is_empty() || (!is_enum && rng.chance(1, 10)) {
                     GValue::Ent(Uid::new(n, "zz-dangling"))
                 } else {
@@ -847,7 +847,8 @@ impl<'a> TypedGen<'a> {
 
     fn uid_of_type(&mut self, ty: &str) -> Uid {
         let pool = self.pools.get(ty).cloned().unwrap_or_default();
-        let is_enum = self.schema.entity_type(ty).map(|e| e.enum_ids.is_some()).unwrap_or(false);
+        // enumerated entity types and action types only have their declared ids
+        let is_enum = self.schema.entity_type(ty).map(|e| e.enum_ids.is_some()).unwrap_or(false) || ty == "Action" || ty.ends_with("::Action");
         if pool.is_empty() || (!is_enum && self.rng.chance(1, 8)) {
             Uid::new(ty, "zz-lit")
         } else {
